@@ -14,9 +14,11 @@ import c09
 STDOUT = 'stdout'
 
 
-def all_free_tree(k):
-    """[v0, .., v(k-1)] >= 0 : every atom occurs free exactly once"""
-    leaves = [('leaf', Choice.concrete(LEAF, 'var'), Choice.concrete(list(range(k)), i)) for i in range(k)]
+def all_free_tree(k, reverse=False):
+    """[v0, .., v(k-1)] >= 0 : every atom occurs free exactly once (reverse: the text mentions them in descending order,
+    so that first-appearance order and variable order differ, as under a custom ordering)"""
+    order = list(range(k))[::-1] if reverse else list(range(k))
+    leaves = [('leaf', Choice.concrete(LEAF, 'var'), Choice.concrete(list(range(k)), i)) for i in order]
     return ('cc', Choice.concrete(CNT, 'AtLeast'), leaves, 0)
 
 
@@ -81,7 +83,7 @@ def unit_print_table(k, opts):
     w = world_for(k)
     env, mem = table_env(I)
     install_summaries(I, w, evalcore.ALL_CONTRACTS)
-    pfs = real_constructor(I, w, env, mem, all_free_tree(k))
+    pfs = real_constructor(I, w, env, mem, all_free_tree(k, opts.get('reverse', False)))
     if len(pfs) != 1:
         raise EngineError('constructor returned %d outcomes for a concrete tree' % len(pfs))
     g0, pf, mem = pfs[0]
@@ -122,7 +124,7 @@ def unit_print_table(k, opts):
     def case(model):
         model = model or {}
         tt = ''.join('1' if model.get('f_%d' % j) else '0' for j in range(1 << k))
-        return dict(kind='table', k=k, ids=concrete_ids(model, w), tt=tt, filter=['True', 'False', 'Any'][bddcore.sel_index(model, 'flt', 3)])
+        return dict(kind='table', k=k, ids=concrete_ids(model, w), tt=tt, filter=['True', 'False', 'Any'][bddcore.sel_index(model, 'flt', 3)], reverse=bool(opts.get('reverse')))
 
     def ask(name, neg, expect='unsat'):
         nonlocal cex
@@ -347,6 +349,8 @@ def jobs(quick):
     js = []
     for k in ((1, 2, 3) if quick else (1, 2, 3, 4)):
         js.append(('print_truth_table_recursive k=%d' % k, unit_print_table, (k, {})))
+    for k in (2, 3):
+        js.append(('print_truth_table_recursive k=%d, variables first mentioned in descending order' % k, unit_print_table, (k, dict(reverse=True))))
     for k in (1, 2):
         js.append(('print_true_vars_recursive (-v) k=%d' % k, unit_print_vars, (k, {})))
     for sh in [('bin', 'L', 'L'), ('q', 1, ('bin', 'L', 'L')), ('cc', ('L', 'L', 'L')), ('fp', ('bin', 'L', 'L'))]:
@@ -357,12 +361,14 @@ def jobs(quick):
 
 # ------------------------------------------------------------------------------------------------ replay through the real CLI
 
-def dnf_text(tt, names):
+def dnf_text(tt, names, reverse=False):
     k = len(names)
     terms = []
     for j, b in enumerate(tt):
         if b == '1':
             lits = [(names[i] if (j >> (k - 1 - i)) & 1 else '-' + names[i]) for i in range(k)]
+            if reverse:
+                lits = lits[::-1]
             terms.append('(' + ' & '.join(lits) + ')' if lits else 'true')
     return ' | '.join(terms) if terms else 'false'
 
@@ -422,7 +428,7 @@ def judge_table(case):
     k = case['k']
     names = ['v%d' % i for i in range(k)]
     ids = compress_ids(case['ids'])
-    text = dnf_text(case['tt'], names)
+    text = dnf_text(case['tt'], names, case.get('reverse', False))
     d = tempfile.mkdtemp(dir=tmpdir())
     of = os.path.join(d, 'order.txt')
     open(of, 'w').write(ordering_text(names, ids))
